@@ -19,6 +19,7 @@ PINNED_ENV = {
     "NUMEXPR_NUM_THREADS": "1",
     "PYTHONDONTWRITEBYTECODE": "1",
     "CUDA_VISIBLE_DEVICES": "",
+    "PYTHONWARNINGS": "ignore",
     GUARD: "1",
 }
 
